@@ -1046,6 +1046,7 @@ class Executor:
         c = re.sub(r"\b(?:core|std)::mem::", "std::mem::", c)
         c = re.sub(r"\bops::control_flow::", "", c)
         c = re.sub(r"\b(?:core::)?slice::<impl", "core::slice::<impl", c)
+        c = re.sub(r"(?<![:\w])str::<impl str>", "core::str::<impl str>", c)
         c = re.sub(r"\bheapless::(?:vec::)?Vec", "Vec", c)
         c = re.sub(r"\berrors::err::Error\b", "err::Error", c)
         return c
